@@ -3,6 +3,8 @@ package gem
 import (
 	"fmt"
 	"math"
+	"math/big"
+	"strconv"
 	"strings"
 )
 
@@ -170,43 +172,47 @@ func satisfiesPessimistic(version, constraint *Version) bool {
 
 	// The release part of the version must be below the upper bound
 	release := releaseSegments(version.String())
+	zero := segment{value: "0", isNumeric: true}
 	for i := 0; i < len(release) || i < len(upper); i++ {
-		var r, u int
+		r, u := zero, zero
 		if i < len(release) {
 			r = release[i]
 		}
 		if i < len(upper) {
 			u = upper[i]
 		}
-		if r != u {
-			return r < u
+		if c := compareSegments(r, u); c != 0 {
+			return c < 0
 		}
 	}
 	return false
 }
 
-// bump increments a release segment; a segment too large for an int (kept as math.MaxInt) stays as it is
-func bump(n int) int {
-	if n == math.MaxInt {
-		return n
+// bump increments a numeric release segment (arbitrary precision)
+func bump(s segment) segment {
+	if !s.oversized && s.numValue < math.MaxInt {
+		s.numValue++
+		s.value = strconv.Itoa(s.numValue)
+		return s
 	}
-	return n + 1
+	n, _ := new(big.Int).SetString(s.value, 10)
+	return createSegment(n.Add(n, big.NewInt(1)).String())
 }
 
 // releaseSegments returns the leading numeric segments of a version as written (trailing zeros
 // kept, prerelease segments and build metadata dropped).
-func releaseSegments(text string) []int {
+func releaseSegments(text string) []segment {
 	text = strings.TrimPrefix(strings.TrimSpace(text), "v")
 	if plusIndex := strings.Index(text, "+"); plusIndex != -1 {
 		text = text[:plusIndex]
 	}
-	var release []int
+	var release []segment
 	for _, part := range segmentPattern.FindAllString(strings.ReplaceAll(text, "-", ".pre."), -1) {
 		seg := createSegment(part)
 		if !seg.isNumeric {
 			break
 		}
-		release = append(release, seg.numValue)
+		release = append(release, seg)
 	}
 	return release
 }
